@@ -9,7 +9,7 @@ from symx.harness import Unit as _Unit
 
 
 def Unit(*a, **k):
-    k.setdefault("group", False)
+    k.setdefault("group", k.pop("linear", False))
     k.setdefault("feas_ms", 800)
     k.setdefault("ob_ms", 30000)
     return _Unit(*a, **k)
@@ -53,7 +53,9 @@ def _M(ctx, k, kind):
     """(matrix for the real code, exact object matrix, linear scale)"""
     M = np.zeros((4, 4), dtype=object)
     M[3, 3] = 1
-    t = [ctx.real("t%d_%d" % (k, i), -10, 10) for i in range(3)]
+    # translation ranges keep the three instances apart (n1 low, n3 high) so that "which instance is extreme" does not multiply paths; within them every value is covered
+    lo_t, hi_t = {0: (-10, -8), 1: (0.5, 1.5), 2: (8, 10)}.get(k, (-10, 10))
+    t = [ctx.real("t%d_%d" % (k, i), lo_t, hi_t) for i in range(3)]
     s = 1
     if kind == "t":
         R = np.eye(3, dtype=object)
@@ -75,9 +77,24 @@ def _M(ctx, k, kind):
     return Mreal, M, s
 
 
+def _c04():
+    import importlib.util
+    import os
+    import sys
+
+    if "harness_C04" not in sys.modules:
+        spec = importlib.util.spec_from_file_location("harness_C04", os.path.join(os.path.dirname(os.path.abspath(__file__)), "C04_transforms.py"))
+        mod = importlib.util.module_from_spec(spec)
+        sys.modules["harness_C04"] = mod
+        spec.loader.exec_module(mod)
+    return sys.modules["harness_C04"]
+
+
 def _build(ctx):
     """scene + oracle {node: (W, scale, geometry name)}"""
     import trimesh
+
+    _c04()._stub(ctx)  # flips_winding's random triangles -> small rationals (contract: any non-degenerate triangles)
 
     kinds = ctx.params["kinds"]
     tet, strip = _mesh(ctx, TET_V, TET_F), _mesh(ctx, STRIP_V, STRIP_F)
@@ -332,13 +349,13 @@ def units(tier):
     us = []
     for fam, kinds in FAMILIES.items():
         us.append(Unit("quantities-%s" % fam, u_quantities, params={"kinds": kinds}, key="quantities/%s" % fam, functions=FUN,
-                       bounds="forest world->n1->n2 (tet twice), world->n3 (strip), node without geometry, geometry without node; edge matrices of family '%s', all parameter values" % fam, max_paths=60, wall_s=400))
+                       bounds="forest world->n1->n2 (tet twice), world->n3 (strip), node without geometry, geometry without node; edge matrices of family '%s', all parameter values" % fam, max_paths=60, wall_s=400, linear=fam in ("t", "rot")))
     for op in ("copy", "scaled", "scaled3", "rezero", "apply_transform", "add", "subscene"):
         for fam in (("t", "st", "rot") if not T else tuple(FAMILIES)):
             if op in ("scaled3",) and fam == "st" and not T:
                 continue
             us.append(Unit("%s-%s" % (op, fam), u_derived, params={"kinds": FAMILIES[fam], "op": op, "extras": op not in ("add",)}, key="%s/%s" % (op, fam), functions=FUN,
-                           bounds="same forest, operation '%s', edge family '%s', all parameter values" % (op, fam), max_paths=80, wall_s=400))
+                           bounds="same forest, operation '%s', edge family '%s', all parameter values" % (op, fam), max_paths=80, wall_s=400, linear=fam in ("t", "rot") and op in ("copy", "rezero", "subscene", "add")))
     if T:
         for op in ("copy", "scaled", "apply_transform"):
             us.append(Unit("%s-st-read-first" % op, u_derived, params={"kinds": FAMILIES["st"], "op": op, "read_first": True}, key="%s/st" % op, functions=FUN, bounds="as above after reading bounds/triangles/area", max_paths=80, wall_s=400))
